@@ -2,6 +2,7 @@
     Only statements, closed by [exact], with their assumptions printed and pinned. *)
 From DL Require Import Lib.Bytes Model.StringLit Proof.StringLitBasics Proof.StringLitFacts
   Proof.StringLitSegment.
+From DL Require Import Lib.F64 Lua.Syntax Model.NumberLit Model.NumberWrite Proof.NumberWrite.
 Open Scope N_scope.
 
 (** Every byte string, in whatever quoting form [write_string] picks (single, double,
@@ -57,6 +58,68 @@ Proof. exact segment_roundtrip. Qed.
 Print Assumptions C13_segment_roundtrip.
 Check C13_segment_roundtrip : forall s,
   wf_bytes s = true -> decode_segment (segment_bytes s) = Some s.
+
+(** Numbers.  [Model/NumberWrite.v] is the writer ([write_number]) for hexadecimal and binary nodes,
+    the non-finite spellings and integer-valued decimal nodes; [Model/NumberLit.from_str] is darklua's
+    reader (both tied to the code on every run).  Every hexadecimal node a [u64] / [u32] pair can hold
+    is written to a text that reads back as the SAME node (value, case of the x, exponent and its
+    case), so the value cannot change through generation and re-parsing. *)
+Theorem C13_write_hex_roundtrip : forall v u e, v < 2 ^ 64 ->
+  (forall ex up, e = Some (ex, up) -> ex < 2 ^ 32) ->
+  from_str (write_hex v u e) = Some (NHex v u e).
+Proof. exact write_hex_roundtrip. Qed.
+Print Assumptions C13_write_hex_roundtrip.
+Check C13_write_hex_roundtrip : forall v u e, v < 2 ^ 64 ->
+  (forall ex up, e = Some (ex, up) -> ex < 2 ^ 32) ->
+  from_str (write_hex v u e) = Some (NHex v u e).
+
+Theorem C13_write_bin_roundtrip : forall v u, v < 2 ^ 64 ->
+  from_str (write_bin v u) = Some (NBin v u).
+Proof. exact write_bin_roundtrip. Qed.
+Print Assumptions C13_write_bin_roundtrip.
+Check C13_write_bin_roundtrip : forall v u, v < 2 ^ 64 ->
+  from_str (write_bin v u) = Some (NBin v u).
+
+(** the integer formatter ([{:x}], [{:b}], [{}]) against the integer parsers, any radix 2..16, any bound *)
+Theorem C13_fmt_radix_parse : forall radix bound v, 2 <= radix -> radix <= 16 -> v <= bound ->
+  parse_digits radix bound (fmt_radix radix v) 0 = Some v.
+Proof. exact fmt_radix_parse. Qed.
+Print Assumptions C13_fmt_radix_parse.
+Check C13_fmt_radix_parse : forall radix bound v, 2 <= radix -> radix <= 16 -> v <= bound ->
+  parse_digits radix bound (fmt_radix radix v) 0 = Some v.
+
+(** what is written is a non-empty run of digits / lower-case hexadecimal letters: no sign, no
+    underscore, no exponent letter that the reader could take for something else *)
+Theorem C13_fmt_radix_digits : forall radix v c, 2 <= radix -> radix <= 16 -> In c (fmt_radix radix v) ->
+  (48 <= c /\ c <= 57) \/ (97 <= c /\ c <= 102).
+Proof. exact fmt_radix_digits. Qed.
+Print Assumptions C13_fmt_radix_digits.
+Check C13_fmt_radix_digits : forall radix v c, 2 <= radix -> radix <= 16 -> In c (fmt_radix radix v) ->
+  (48 <= c /\ c <= 57) \/ (97 <= c /\ c <= 102).
+
+Theorem C13_fmt_radix_nonempty : forall radix v, fmt_radix radix v <> [].
+Proof. exact fmt_radix_nonempty. Qed.
+Print Assumptions C13_fmt_radix_nonempty.
+Check C13_fmt_radix_nonempty : forall radix v, fmt_radix radix v <> [].
+
+(** decimal nodes holding an integer (either sign, the negative zero included) and no exponent: the
+    written digits read back as a decimal node whose double is that integer correctly rounded
+    (below 2^53: exactly that integer).  Uses the float-validity lemma of Proof/EvaluatorF64.v
+    (Flocq: the four classical / extensionality axioms of the standard library). *)
+Theorem C13_write_dec_int_reads_value : forall neg m, m < 2 ^ 53 ->
+  exists bits, from_str (write_dec_int neg m) = Some (NDec bits None) /\
+               of_bits bits = (if neg then fneg (of_N m) else of_N m).
+Proof. exact write_dec_int_reads_value. Qed.
+Print Assumptions C13_write_dec_int_reads_value.
+Check C13_write_dec_int_reads_value : forall neg m, m < 2 ^ 53 ->
+  exists bits, from_str (write_dec_int neg m) = Some (NDec bits None) /\
+               of_bits bits = (if neg then fneg (of_N m) else of_N m).
+
+Example C13_example_hex :
+  write_hex 255 true (Some (4, false)) = of_string "0Xffp4" /\
+  from_str (of_string "0Xffp4") = Some (NHex 255 true (Some (4, false))) /\
+  write_number_model (NDec (to_bits (fneg (of_N 1234567))) None) = Some (of_string "-1234567").
+Proof. vm_compute. repeat split. Qed.
 
 (** non-vacuity: hypotheses are met by non-trivial values *)
 Example C13_example_long :
